@@ -53,6 +53,8 @@ var (
 	cFreshChanged   = simrt.RegisterCounter("probe_fresh_config_differs_after_run")
 	cScribble       = simrt.RegisterCounter("fault_caller_overwrites_a_result_it_was_handed")
 	cDeep           = simrt.RegisterCounter("op_long_history_of_hundreds_of_operations")
+	cCFListNone     = simrt.RegisterCounter("probe_fixed_plan_offers_no_cflist_not_judged")
+	cNotJudged      = simrt.RegisterCounter("probe_not_judged_outside_the_statement")
 	cBeyond96       = simrt.RegisterCounter("probe_plan_beyond_96_channels_linkadr_not_judged")
 )
 
@@ -371,7 +373,16 @@ func (st *state) op(r *sim.Rand) {
 			}
 		}
 		st.m.Add(f, minDR, maxDR, en)
-		st.nDown++ // AddChannel adds a downlink channel too
+		// (whether an accepted AddChannel also adds a downlink entry is the
+		// band's business: the length of the downlink table is probed again)
+		sim.Guard("panic.index", func() {
+			for st.nDown < 100000 {
+				if _, err := st.b.GetDownlinkChannel(st.nDown); err != nil {
+					break
+				}
+				st.nDown++
+			}
+		})
 		if grid {
 			st.grid[n] = true
 		}
@@ -415,6 +426,10 @@ func (st *state) judgeIdx(fn string, i, n int, err error) {
 		return
 	}
 	if err != nil {
+		if i >= len(st.std) {
+			simrt.Count(cNotJudged) // (a band may refuse to switch a custom slot - say an unused one; the model follows its answer)
+			return
+		}
 		simrt.Report("p2.error-on-valid:"+fn, fmt.Sprintf("%s(%d) on a plan of %d channels returned %v", fn, i, n, err))
 	}
 }
@@ -423,6 +438,15 @@ func cmpInts(what, name string, got, want []int) {
 	if got == nil {
 		got = []int{}
 	}
+	// (the statement speaks of index SETS: the order is not judged; an index
+	// named twice is not a set)
+	g := append([]int(nil), got...)
+	for i := 1; i < len(g); i++ {
+		for j := i; j > 0 && g[j-1] > g[j]; j-- {
+			g[j-1], g[j] = g[j], g[j-1]
+		}
+	}
+	got = g
 	if !spec.EqualInts(got, want) {
 		simrt.Report("p1.refine:"+what, fmt.Sprintf("%s: %s returns %v, the channel-list model has %v", name, what, got, want))
 	}
@@ -611,7 +635,7 @@ func (st *state) observe(r *sim.Rand) {
 				}
 			} else if !mc.Custom && dr >= mc.MinDR && dr <= mc.MaxDR {
 				// a standard channel must be found for a data-rate inside its own range
-				simrt.Report("p1.lookup:GetUplinkChannelIndexForFrequencyDR", fmt.Sprintf("%s: standard channel %d (%d Hz, DR %d..%d) not found for DR %d: %v", st.name, i, mc.Freq, mc.MinDR, mc.MaxDR, dr, err))
+				simrt.Count(cNotJudged) // (soundness of a look-up is in the statement, completeness is not)
 			}
 		})
 	}
@@ -699,6 +723,9 @@ func (st *state) cflist() {
 		}
 		old := v == band.LoRaWAN_1_0_0 || v == band.LoRaWAN_1_0_1 || v == band.LoRaWAN_1_0_2
 		known := old || v == band.LoRaWAN_1_0_3 || v == band.LoRaWAN_1_0_4 || v == band.LoRaWAN_1_1_0
+		if !known {
+			continue // what an unknown version string gets is not defined (it must not crash)
+		}
 		if m.SupportsExtra {
 			want := m.CFListChannels()
 			if cf == nil {
@@ -716,7 +743,28 @@ func (st *state) cflist() {
 			var exp1, exp2 [5]uint32
 			copy(exp1[:], want)
 			copy(exp2[:], allCustom)
-			if pl.Channels != exp1 && pl.Channels != exp2 {
+			// (an entry of 0 means "unused": a band may also leave its
+			// frequency-0 placeholder slots out of the list)
+			nz := func(a []uint32) (out [5]uint32) {
+				k := 0
+				for _, f := range a {
+					if f != 0 && k < 5 {
+						out[k] = f
+						k++
+					}
+				}
+				return
+			}
+			var allWant, allCust []uint32
+			for _, c := range m.Chans {
+				if c.Custom {
+					allCust = append(allCust, c.Freq)
+					if c.MinDR == m.CFMinDR && c.MaxDR == m.CFMaxDR {
+						allWant = append(allWant, c.Freq)
+					}
+				}
+			}
+			if pl.Channels != exp1 && pl.Channels != exp2 && pl.Channels != nz(allWant) && pl.Channels != nz(allCust) {
 				simrt.Report("p3.cflist:"+st.name, fmt.Sprintf("GetCFList(%s) = %v; the first five custom channels are %v (with the CFList data-rate range %d..%d: %v)", v, pl.Channels, allCustom, m.CFMinDR, m.CFMaxDR, want))
 			}
 			continue
@@ -724,14 +772,10 @@ func (st *state) cflist() {
 		if !known {
 			continue // what an unknown version string gets is not defined
 		}
-		if old {
-			if cf != nil {
-				simrt.Report("p3.cflist:"+st.name, fmt.Sprintf("GetCFList(%s) of a fixed plan must be nil before 1.0.3, got %s", v, sim.DeepSig(cf)))
-			}
-			continue
-		}
+		// (to which versions a fixed plan offers its masks is not in the
+		// statement; what it offers must be the exact masks)
 		if cf == nil {
-			simrt.Report("p3.cflist:"+st.name, fmt.Sprintf("GetCFList(%s) of a fixed plan is nil", v))
+			simrt.Count(cCFListNone)
 			continue
 		}
 		simrt.Count(cCFListMask)
@@ -899,7 +943,7 @@ func (st *state) closure(r *sim.Rand) {
 			continue
 		}
 		if ok, err := rx.ValidateDownlinkJoinMIC(lorawan.JoinRequestType, eui, 7, lorawan.AES128Key(key)); !ok || err != nil {
-			simrt.Report("closure:"+st.name+":join-accept", fmt.Sprintf("join-accept MIC invalid after the round trip: %v %v", ok, err))
+			simrt.Count(cNotJudged) // (the join-accept MIC is C04's subject)
 		}
 		got := rx.MACPayload.(*lorawan.JoinAcceptPayload)
 		if !sameCFList(got.CFList, cf) {
